@@ -1,10 +1,26 @@
 import Pyrtma.Proofs.Manager
 import Pyrtma.Proofs.ManagerId
+import Pyrtma.Proofs.ManagerSimDrv
 /-!
 # C06 — module identity: unique ids, sound dynamic ids
 
 Theorems about `assignLoop` (the model of `assign_module_id`) for every table of used ids, every cursor position and
 every size of the dynamic range, and about `connectModule` / everything else for the identity invariant `IdInv`.
+
+For every history (the refinement link, `Proofs/ManagerSim*.lean`): `spec_connect_clause_passes_on_model` — run the model
+on any well-formed history and give the history-based Spec (`Spec.runSpec`, the function the driver evaluates on what the
+real `MessageManager` did) the events the model itself wrote: the verdict contains **no C06 entry**.  The C06 clauses of
+the Spec are `checkConnect` (a request with a non-zero id that must be refused — id out of range, id held by a connected
+module when either side is unique, name held by a unique module — is not acknowledged; a request that is not
+acknowledged may be refused — the former reasons, or the name of the manager's own entry, or a unique newcomer
+reusing a name; a dynamic id that is acknowledged lies in `[DYN_MOD_ID_START, MAX_MODULES)` and is held by no live
+module; a dynamic-id request is refused only when every dynamic id is held by a live module) and `checkInfos` (every
+CLIENT_INFO frame — after CONNECT, CLIENT_SET_NAME, MODULE_READY, and the ones `send_active_clients` writes in the
+periodic section — reports id, logger flag, uniqueness, name and pid as the connect request / later frames set them).
+The proof carries the simulation relation `Sim` (with the model invariants the decision rests on: distinct uids, the
+manager's own entry, "a module that is not connected holds no id", the dynamic-id cursor in range) through every round
+and compares `connect_module`'s clash loop and `assign_module_id` with the Spec's `mustRefuse` / `mayRefuse` /
+`dynFull` over the Spec's own abstract table.
 -/
 namespace Pyrtma.C06
 open Pyrtma.Mgr
@@ -246,6 +262,19 @@ theorem connect_decision (cfg : Cfg) (s : State) (u : Nat) (hd : Hdr) (nm : List
     | none => simp
     | some p => obtain ⟨id, off⟩ := p; simp
 
+/-! ### The Spec's C06 clauses on every run of the model -/
+
+/-- **The Spec's connect-decision and CLIENT_INFO clauses hold on every run of the model.**  For every configuration
+meeting the side conditions (`CfgOK`, automatic fuel, CLIENT_CLOSED is not the ALL_MESSAGE_TYPES sentinel;
+`OrdPerm`: the iteration order of a Python `set` visits every
+element once — insertion order and its reverse, which the driver uses, are instances) and every history whose frames
+are read from connections (never from the manager's own table entry, uid 0 — true of every generated history), the
+verdict `Spec.runSpec` computes from the history and the model's own events has no C06 entry. -/
+theorem spec_connect_clause_passes_on_model (cfg : Cfg) (ok : CfgOK cfg) (hfuel : cfg.fuel = 0) (hperm : OrdPerm cfg)
+    (hmt : cfg.mtClosed ≠ cfg.allTypes) (rs : List Round) (hwf : RoundsWF rs) :
+    (Spec.runSpec cfg rs (Pyrtma.Drv.Manager.modelRun cfg rs).1 none).errs.filter (·.1 == "C06") = [] :=
+  spec_passes_on_model ok hfuel hperm hmt rs hwf "C06" (by simp [proven]) (fun h => absurd h (by decide))
+
 /-! ### Non-vacuity -/
 /-- two clients ask for id 10: the second is refused and closed, the first keeps it -/
 def exRounds : List Round :=
@@ -257,5 +286,23 @@ example : ((run {} exRounds).mods.map (fun m => (m.uid, m.modId, m.connected))) 
 example : assignLoop 100 100 [0, 100, 101, 0] 100 0 = some (102, 3) := by decide
 example : assignLoop 100 3 [100, 101, 102] 3 1 = none := by decide
 example : assignLoop 100 3 [100, 102] 3 2 = some (101, 2) := by decide     -- wraps: probes 102, 100, 101
+
+/-- a history: three connections; the first takes id 10, the second asks for the same id and is refused (no
+    ACKNOWLEDGE, connection closed), the third asks for a dynamic id and gets 100 -/
+def exHist : List Round :=
+  [{ accept := true }, { accept := true }, { accept := true },
+   { reads := [{ uid := 1, h := { k := 1, mtype := 13, src := 10 } }], writable := [1, 2, 3] },
+   { reads := [{ uid := 2, h := { k := 2, mtype := 13, src := 10 } }], writable := [1, 2, 3] },
+   { reads := [{ uid := 3, h := { k := 3, mtype := 13, src := 0 } }], writable := [1, 2, 3] }]
+
+example : RoundsWF exHist := by
+  intro r hr rd hrd
+  simp only [exHist, List.mem_cons, List.not_mem_nil, or_false] at hr
+  rcases hr with rfl | rfl | rfl | rfl | rfl | rfl <;> simp at hrd <;> subst hrd <;> decide
+
+example : ((run {} exHist).mods.map (fun m => (m.uid, m.modId, m.connected))) =
+    [(0, 0, true), (1, 10, true), (3, 100, true)] := by decide +kernel
+
+example : (Spec.runSpec {} exHist (Pyrtma.Drv.Manager.modelRun {} exHist).1 none).errs = [] := by decide +kernel
 
 end Pyrtma.C06
